@@ -58,6 +58,40 @@ def fill(ls, vals, off=0):
     return rows
 
 
+
+VARIANT = ["fresh"]
+_rot = [0]
+
+
+def RA(rows, dtype):
+    """the array under test: freshly built, or (second pass) an equal array obtained as a lazy view of a larger one —
+    every property is quantified over every ragged array, derived ones included (C06)"""
+    import numpy as np
+    from npstructures import RaggedArray
+    if VARIANT[0] == "fresh" or not rows:
+        return RaggedArray(rows, dtype=dtype)
+    junk = np.ones(1, dtype=dtype).tolist()[0]
+    _rot[0] += 1
+    k = _rot[0] % 5
+    n = len(rows)
+    if k == 0: return RaggedArray([[junk, junk]] + rows, dtype=dtype)[1:]
+    if k == 1: return RaggedArray(rows[::-1], dtype=dtype)[::-1]
+    if k == 2: return RaggedArray([list(r) + [junk] for r in rows], dtype=dtype)[:, :-1]
+    if k == 3: return RaggedArray([[junk] + list(r) for r in rows], dtype=dtype)[:, 1:]
+    return RaggedArray(rows + [[junk]], dtype=dtype)[list(range(n))]
+
+
+def both_variants(f):
+    """run a family once on freshly built arrays and once on lazily derived equal arrays"""
+    def g(R, tier, rng):
+        import random
+        seed = rng.random()
+        for v in ("fresh", "view"):
+            VARIANT[0] = v
+            try: f(R, tier, random.Random(seed))
+            finally: VARIANT[0] = "fresh"
+    return g
+
 class Ctx:
     def __init__(self, R, prefix, blank_empty_dtype=False):
         self.R, self.prefix, self.blank_empty_dtype = R, prefix, blank_empty_dtype
@@ -68,7 +102,9 @@ class Ctx:
             i = guarded(impl_fn); s = guarded(spec_fn)
         if self.blank_empty_dtype:
             i, s = blank(i), blank(s)
-        self.R.record(self.prefix + " " + case, i, s, s, nt, kind, py=py or case)
+        v = VARIANT[0]
+        self.R.record(self.prefix + ("" if v == "fresh" else "@view") + " " + case, i, s, s, nt, kind + ("" if v == "fresh" else "@view"),
+                      py=(py or case) + ("" if v == "fresh" else "   [first operand obtained as a lazy view of a larger array]"))
 
 
 def blank(o):
@@ -100,6 +136,7 @@ PYOPS = {"+": lambda a, b: a + b, "-": lambda a, b: a - b, "*": lambda a, b: a *
          "|": lambda a, b: a | b, "^": lambda a, b: a ^ b, "//": lambda a, b: a // b, "/": lambda a, b: a / b, ">=": lambda a, b: a >= b, "!=": lambda a, b: a != b}
 
 
+@both_variants
 def run_c04(R, tier, rng):
     import numpy as np
     from npstructures import RaggedArray
@@ -129,7 +166,7 @@ def run_c04(R, tier, rng):
                 base = f"{name} {dt1} {dty} {ls}"
                 # (a) ragged, identical row lengths
                 C.cmp(base + " ragged", "ragged/" + name, nt,
-                      lambda: ra_obs(uf(RaggedArray(X, dtype=dt1), RaggedArray(Y2, dtype=dty))),
+                      lambda: ra_obs(uf(RA(X, dt1), RaggedArray(Y2, dtype=dty))),
                       lambda: spec_rows(lambda a, b: uf(a, b), X, dt1, lambda i: np.array(Y2[i] if i is not None else [], dtype=dty)),
                       py=f"np.{name}(RaggedArray({X}, dtype='{dt1}'), RaggedArray({Y2}, dtype='{dty}'))")
                 # (b) scalars: python scalar, numpy scalar, 0-d array; either side
@@ -142,7 +179,7 @@ def run_c04(R, tier, rng):
                             continue          # the ragged operand on the right would have to be non-zero / a small shift everywhere
                         f = (lambda a, s: uf(a, s)) if side == "R" else (lambda a, s: uf(s, a))
                         C.cmp(f"{base} scalar-{sk}-{side} {sv!r}", f"scalar-{sk}-{side}/" + name, nt,
-                              lambda: ra_obs(f(RaggedArray(X, dtype=dt1), mkS())),
+                              lambda: ra_obs(f(RA(X, dt1), mkS())),
                               lambda: spec_rows(lambda a, b: f(a, b), X, dt1, lambda i: mkS()),
                               py=f"np.{name}(" + (f"RaggedArray({X}, dtype='{dt1}'), {sk}:{sv!r}" if side == "R" else f"{sk}:{sv!r}, RaggedArray({X}, dtype='{dt1}')") + ")")
                 # (c) column vector (n,1), either side; wrong height refused
@@ -154,11 +191,11 @@ def run_c04(R, tier, rng):
                         if side == "L" and name in ("floor_divide", "mod", "true_divide", "left_shift", "right_shift"): continue
                         f = (lambda a, s: uf(a, s)) if side == "R" else (lambda a, s: uf(s, a))
                         C.cmp(f"{base} column-{side} {col}", f"column-{side}/" + name, nt,
-                              lambda: ra_obs(f(RaggedArray(X, dtype=dt1), np.array(col, dtype=dty)[:, None])),
+                              lambda: ra_obs(f(RA(X, dt1), np.array(col, dtype=dty)[:, None])),
                               lambda: spec_rows(lambda a, b: f(a, b), X, dt1, lambda i: np.array([col[i]] if i is not None else [], dtype=dty) if i is not None else np.array([], dtype=dty)),
                               py=f"np.{name}(RaggedArray({X}, dtype='{dt1}'), np.array({col}, dtype='{dty}')[:, None]) side={side}")
                     C.cmp(f"{base} column-wrong-height", "column-mismatch/" + name, nt,
-                          lambda: ra_obs(uf(RaggedArray(X, dtype=dt1), np.array(col + col[:1] + col[:1], dtype=dty)[:, None])), lambda: (_ for _ in ()).throw(ValueError()),
+                          lambda: ra_obs(uf(RA(X, dt1), np.array(col + col[:1] + col[:1], dtype=dty)[:, None])), lambda: (_ for _ in ()).throw(ValueError()),
                           py=f"np.{name}(RaggedArray({X}), column of height {n + 2})")
                 # (d) ragged with different row lengths: refused
                 if n and sum(ls):
@@ -167,11 +204,20 @@ def run_c04(R, tier, rng):
                     Z = fill(ls2, VALS[dty], 1)
                     if name in ("floor_divide", "mod", "true_divide", "left_shift", "right_shift"): Z = [[1 for _ in r] for r in Z]
                     C.cmp(f"{base} ragged-mismatch {ls2}", "ragged-mismatch/" + name, nt,
-                          lambda: ra_obs(uf(RaggedArray(X, dtype=dt1), RaggedArray(Z, dtype=dty))), lambda: (_ for _ in ()).throw(ValueError()),
+                          lambda: ra_obs(uf(RA(X, dt1), RaggedArray(Z, dtype=dty))), lambda: (_ for _ in ()).throw(ValueError()),
                           py=f"np.{name}(RaggedArray({X}), RaggedArray({Z}))")
+                # (e) ragged operands with a different NUMBER of rows (broadcastable length vectors included): refused
+                for ls3 in ([1], [ls[0]] if n else [1], ls[:-1], ls + [0], [sum(ls)], []):
+                    if list(ls3) == list(ls): continue
+                    Z = fill(list(ls3), VALS[dty], 2)
+                    if name in ("floor_divide", "mod", "true_divide", "left_shift", "right_shift"): Z = [[1 for _ in r] for r in Z]
+                    for side in ("R", "L"):
+                        C.cmp(f"{base} ragged-rowcount-mismatch-{side} {ls3}", "ragged-mismatch/" + name, nt,
+                              lambda: ra_obs(uf(RA(X, dt1), RaggedArray(Z, dtype=dty)) if side == "R" else uf(RaggedArray(Z, dtype=dty), RA(X, dt1))),
+                              lambda: (_ for _ in ()).throw(ValueError()), py=f"np.{name}(RaggedArray({X}), RaggedArray({Z})) side={side}")
                 # operands unmodified
                 def unmod():
-                    a = RaggedArray(X, dtype=dt1); b = RaggedArray(Y2, dtype=dty)
+                    a = RA(X, dt1); b = RaggedArray(Y2, dtype=dty)
                     guarded(lambda: uf(a, b)); guarded(lambda: uf(a, np.dtype(dty).type(sv))); guarded(lambda: uf(np.dtype(dty).type(sv), b))
                     return [kl(a.tolist()), kl(b.tolist()), str(a.dtype), str(b.dtype)]
                 C.cmp(base + " operands-unchanged", "unmodified/" + name, nt, unmod,
@@ -179,28 +225,29 @@ def run_c04(R, tier, rng):
             # unary ufuncs and python operators
             for name in rng.sample(UNARY, 3):
                 uf = getattr(np, name)
-                C.cmp(f"{name} {dt1} {ls}", "unary/" + name, nt, lambda: ra_obs(uf(RaggedArray(X, dtype=dt1))),
+                C.cmp(f"{name} {dt1} {ls}", "unary/" + name, nt, lambda: ra_obs(uf(RA(X, dt1))),
                       lambda: rows_obs([uf(np.array(r, dtype=dt1)) for r in X], uf(np.array([], dtype=dt1)).dtype), py=f"np.{name}(RaggedArray({X}, dtype='{dt1}'))")
             for sym in rng.sample(sorted(PYOPS), 3):
                 op = PYOPS[sym]
                 Y3 = [[(v if v not in (0, False) and v == v else VALS[dt2][1]) for v in r] for r in Y] if sym in ("//", "/") else Y
-                C.cmp(f"op{sym} {dt1} {dt2} {ls}", "operator/" + sym, nt, lambda: ra_obs(op(RaggedArray(X, dtype=dt1), RaggedArray(Y3, dtype=dt2))),
+                C.cmp(f"op{sym} {dt1} {dt2} {ls}", "operator/" + sym, nt, lambda: ra_obs(op(RA(X, dt1), RaggedArray(Y3, dtype=dt2))),
                       lambda: rows_obs([op(np.array(a, dtype=dt1), np.array(b, dtype=dt2)) for a, b in zip(X, Y3)], op(np.array([], dtype=dt1), np.array([], dtype=dt2)).dtype),
                       py=f"RaggedArray({X}, dtype='{dt1}') {sym} RaggedArray({Y3}, dtype='{dt2}')")
                 s = 2 if not dt1.startswith("float") else 0.5
-                C.cmp(f"op{sym} {dt1} scalar {ls}", "operator-scalar/" + sym, nt, lambda: ra_obs(op(RaggedArray(X, dtype=dt1), s)),
+                C.cmp(f"op{sym} {dt1} scalar {ls}", "operator-scalar/" + sym, nt, lambda: ra_obs(op(RA(X, dt1), s)),
                       lambda: rows_obs([op(np.array(a, dtype=dt1), s) for a in X], op(np.array([], dtype=dt1), s).dtype), py=f"RaggedArray({X}, dtype='{dt1}') {sym} {s}")
                 C.cmp(f"rop{sym} {dt1} scalar {ls}", "operator-rscalar/" + sym, nt,
                       lambda: ra_obs(op(s, RaggedArray([[(v if v not in (0, False) and v == v else 1) for v in r] for r in X] if sym in ("//", "/") else X, dtype=dt1))),
                       lambda: rows_obs([op(s, np.array([(v if v not in (0, False) and v == v else 1) for v in a] if sym in ("//", "/") else a, dtype=dt1)) for a in X],
                                        op(s, np.array([], dtype=dt1)).dtype), py=f"{s} {sym} RaggedArray({X}, dtype='{dt1}')")
             if dt1 not in ("float32", "float64"):
-                C.cmp(f"invert {dt1} {ls}", "operator/~", nt, lambda: ra_obs(~RaggedArray(X, dtype=dt1)), lambda: rows_obs([~np.array(r, dtype=dt1) for r in X], (~np.array([], dtype=dt1)).dtype))
+                C.cmp(f"invert {dt1} {ls}", "operator/~", nt, lambda: ra_obs(~RA(X, dt1)), lambda: rows_obs([~np.array(r, dtype=dt1) for r in X], (~np.array([], dtype=dt1)).dtype))
             if dt1 != "bool":
-                C.cmp(f"neg {dt1} {ls}", "operator/neg", nt, lambda: ra_obs(-RaggedArray(X, dtype=dt1)), lambda: rows_obs([-np.array(r, dtype=dt1) for r in X], (-np.array([], dtype=dt1)).dtype))
+                C.cmp(f"neg {dt1} {ls}", "operator/neg", nt, lambda: ra_obs(-RA(X, dt1)), lambda: rows_obs([-np.array(r, dtype=dt1) for r in X], (-np.array([], dtype=dt1)).dtype))
 
 
 # ------------------------------------------------------------------------------------------------ C05
+@both_variants
 def run_c05(R, tier, rng):
     import numpy as np
     from npstructures import RaggedArray
@@ -214,7 +261,7 @@ def run_c05(R, tier, rng):
         for rep in range(len(dts) if (tier == "thorough" or si < 400) else 2):
             dt = dts[(si + rep) % len(dts)]
             X = fill(ls, SMALL[dt], si)
-            mk = lambda: RaggedArray(X, dtype=dt)
+            mk = lambda: RA(X, dt)
             rows = [np.array(r, dtype=dt) for r in X]
             def per_row(f): return [f(r) for r in rows]
             def obs1(v):
@@ -266,6 +313,7 @@ def run_c05(R, tier, rng):
 
 
 # ------------------------------------------------------------------------------------------------ C07
+@both_variants
 def run_c07(R, tier, rng):
     import numpy as np
     from npstructures import RaggedArray
@@ -281,7 +329,7 @@ def run_c07(R, tier, rng):
             for vals_name, table in (("small", SMALL), ("extreme", EXT)):
                 if vals_name == "extreme" and rep: continue
                 X = fill(ls, [v for v in table[dt] if v == v], si)
-                mk = lambda: RaggedArray(X, dtype=dt)
+                mk = lambda: RA(X, dt)
                 rows = [np.array(r, dtype=dt) for r in X]
                 tagc = f"{dt}/{vals_name} {ls}"
                 if dt in ints:
@@ -313,6 +361,7 @@ def run_c07(R, tier, rng):
 
 
 # ------------------------------------------------------------------------------------------------ C08
+@both_variants
 def run_c08(R, tier, rng):
     import numpy as np
     from npstructures import RaggedArray, ragged_slice
@@ -324,7 +373,7 @@ def run_c08(R, tier, rng):
         n = len(ls); nt = n >= 2 and sum(ls) > 0
         for rep in range(2 if tier != "thorough" else 6):
             dt = dts[(si + rep) % len(dts)]
-            X = fill(ls, VALS[dt], si); mk = lambda: RaggedArray(X, dtype=dt)
+            X = fill(ls, VALS[dt], si); mk = lambda: RA(X, dt)
             tagc = f"{dt} {ls}"
             # concatenate along rows: 1..3 operands, empty operands included
             others = [sh[(si * 5 + 1) % len(sh)], [], sh[(si * 3 + 2) % len(sh)]]
@@ -395,6 +444,7 @@ def run_c08(R, tier, rng):
 
 
 # ------------------------------------------------------------------------------------------------ C09
+@both_variants
 def run_c09(R, tier, rng):
     import numpy as np
     from npstructures import RaggedArray
@@ -412,7 +462,7 @@ def run_c09(R, tier, rng):
             dt = dts[(si + rep) % len(dts)]
             for vn, table in (("small", SMALL), ("big", BIG)):
                 if vn == "big" and dt not in ("int64", "uint64"): continue
-                X = fill(ls, table[dt], si); mk = lambda: RaggedArray(X, dtype=dt)
+                X = fill(ls, table[dt], si); mk = lambda: RA(X, dt)
                 tagc = f"{dt}/{vn} {ls}"
                 def colsum():
                     out = []
